@@ -195,6 +195,7 @@ impl Basic {
         let server_ep = Endpoint::new(Arc::new(cfgs::endpoint_config(&sep)), Some(Arc::new(scfg)), true);
         let server_addr = cfgs::addr(0, 0);
         let server = w.add_node(server_ep, server_addr, cid_len, gso_s);
+        w.reset_key_seeds.insert(server, sep.reset_key_seed);
         let retry_first = w.ch.chance("basic.retry", opts.retry, 1000);
 
         let mut clients = Vec::new();
@@ -207,6 +208,7 @@ impl Basic {
             let cep = EpOpts { seed: 0xC11E ^ (i as u64) << 20 ^ w.ch.choose("basic.cepseed", 1 << 16) as u64, cid_len: ccid, cid_lifetime: opts.cid_lifetime_ms.map(Duration::from_millis), reset_key_seed: 100 + i as u64, ..Default::default() };
             let ep = Endpoint::new(Arc::new(cfgs::endpoint_config(&cep)), None, true);
             let n = w.add_node(ep, cfgs::addr(node_id, 0), ccid, gso_c);
+            w.reset_key_seeds.insert(n, cep.reset_key_seed);
             clients.push(n);
             let crypto_c = if opts.use_tap { cfgs::tapped_client_crypto(&w.tap, n, cfgs::rustls_client(true)) } else { cfgs::untapped_client_crypto(cfgs::rustls_client(true)) };
             client_cfgs.push(cfgs::client_config(crypto_c, ct.clone(), 0xDC1D ^ i as u64));
